@@ -148,6 +148,14 @@ pub fn check_players(cfg: &Config, players: Option<&Vec<espada::hand_range::Hand
             }
         }
     }
+    // the same run consumed through nth()/skip()/step_by()/count()/last()/collect()/for_each()
+    {
+        let mk = || match players {
+            Some(p) => espada::evaluator::FlopExhaustiveEvaluator::new(&e_board(&cfg.flop), p),
+            None => cfg.evaluator(),
+        };
+        consume_variants(&mk, &Translator::new(cfg), deals.len(), fp_of(&format!("{:?}", cfg)), "unscoped evaluator")?;
+    }
     let multi = cfg.ranges.iter().any(|r| r.combos.len() >= 2);
     let mut cls = 0u64;
     if blocked_pp > 0 {
